@@ -158,3 +158,102 @@ Definition rect_out_ok (k : metric_kind) (eps rel : Q) (corners : list qpt) (rin
       && qabs_le (observed_metric k s1 s2 - best) (rel * best + e2)
   | _ => false
   end.
+
+(* ------------------------------------------------------------------------------------------ *)
+(* General-position float inputs (the quantifier's second clause): the covering claims within
+   tolerance, evaluated exactly on the doubles (converted to Q) the implementation read and
+   returned.  pts: input points, ring: the returned closed ring. *)
+Definition qpt_eqb (a b : qpt) : bool := Qeq_bool (fst a) (fst b) && Qeq_bool (snd a) (snd b).
+
+Definition float_hull_ok (eps : Q) (pts ring : list qpt) : bool :=
+  match ring with
+  | v0 :: _ :: _ :: _ :: _ =>
+      qpt_eqb (last ring v0) v0
+      && forallb (fun v => existsb (qpt_eqb v) pts) ring
+      && forallb (fun e => let a := fst e in
+                           let d := rsub (snd e) a in
+                           let bound := Qred (qsq eps * rdot d d) in
+                           forallb (left_within a d bound) pts) (qedges ring)
+  | _ => false
+  end.
+
+Definition float_rect_ok (eps rel : Q) (corners ring : list qpt) : bool :=
+  match corners with
+  | [c0; c1; c2; c3; c4] =>
+      let s1 := rsub c1 c0 in
+      let s2 := rsub c3 c0 in
+      let e2 := qsq eps in
+      let d01 := s1 in let b01 := Qred (e2 * rdot d01 d01) in
+      let d12 := rsub c2 c1 in let b12 := Qred (e2 * rdot d12 d12) in
+      let d23 := rsub c3 c2 in let b23 := Qred (e2 * rdot d23 d23) in
+      let d30 := rsub c0 c3 in let b30 := Qred (e2 * rdot d30 d30) in
+      Qeq_bool (fst c4) (fst c0) && Qeq_bool (snd c4) (snd c0)
+      && qle_b (qsq (rdot s1 s2)) (qsq rel * rdot s1 s1 * rdot s2 s2)
+      && (let d := rsub c2 (radd c1 s2) in qle_b (rdot d d) e2)
+      && forallb (fun p => left_within c0 d01 b01 p && left_within c1 d12 b12 p
+                           && left_within c2 d23 b23 p && left_within c3 d30 b30 p) ring
+      && existsb (fun e => on_line_within c0 d01 b01 (fst e) && on_line_within c0 d01 b01 (snd e)) (qedges ring)
+  | _ => false
+  end.
+
+(* ------------------------------------------------------------------------------------------ *)
+(* The caliper walk itself (findMBR / caliper.update), transcribed with exact integer dot products
+   and explicit fuel; None = an index out of range (Go panic) or fuel exhausted (the `for {}` of
+   caliper.update would not have terminated within 2n+2 steps).  The driver checks on every
+   generated ring that the walk reaches exactly the extremes of [candidates] (the reference
+   semantics the theorems are about). *)
+Open Scope Z_scope.
+Definition neg (d : pt) : pt := (- fst d, - snd d).          (* xy.go:rotate180 *)
+
+(* for { c.idx = (c.idx+1) % n; d1 := pt().Dot(dir); if d1 < d0 { c.idx = (c.idx-1+n) % n; break }; d0 = d1 } *)
+Fixpoint caliper_loop (fuel : nat) (ring : list pt) (n : nat) (off dir : pt) (idx : nat) (d0 : Z)
+  : option (nat * Z) :=
+  match fuel with
+  | O => None
+  | S f =>
+      let idx1 := Nat.modulo (S idx) n in
+      match nth_error ring idx1 with
+      | None => None
+      | Some p =>
+          let d1 := dot (sub p off) dir in
+          if d1 <? d0 then Some (idx, d0) else caliper_loop f ring n off dir idx1 d1
+      end
+  end.
+(* caliper.update: returns the new idx and the dot product whose projection becomes c.proj *)
+Definition caliper_update (ring : list pt) (n : nat) (off dir : pt) (idx : nat) : option (nat * Z) :=
+  match nth_error ring idx with
+  | None => None
+  | Some p => caliper_loop (2 * n + 2) ring n off dir idx (dot (sub p off) dir)
+  end.
+
+Fixpoint walk_edges (ring : list pt) (n : nat) (i : nat) (k : nat) (rhs far lhs : nat) : option (list cand) :=
+  match k with
+  | O => Some []
+  | S k' =>
+      match nth_error ring i, nth_error ring (S i) with
+      | Some a, Some b =>
+          let d := sub b a in
+          match caliper_update ring n a d rhs with
+          | None => None
+          | Some (r, tmax) =>
+              let far0 := if Nat.eqb i 0 then r else far in
+              match caliper_update ring n a (rot90 d) far0 with
+              | None => None
+              | Some (f, hmax) =>
+                  let lhs0 := if Nat.eqb i 0 then f else lhs in
+                  match caliper_update ring n a (neg d) lhs0 with
+                  | None => None
+                  | Some (l, ntmin) =>
+                      match walk_edges ring n (S i) k' r f l with
+                      | None => None
+                      | Some cs => Some ({| c_a := a; c_d := d; c_tmin := - ntmin; c_tmax := tmax; c_hmax := hmax |} :: cs)
+                      end
+                  end
+              end
+          end
+      | _, _ => None
+      end
+  end.
+(* for i := 0; i+1 < seq.Length(); i++ *)
+Definition walk_candidates (ring : list pt) : option (list cand) :=
+  let n := length ring in walk_edges ring n 0 (n - 1) 0 0 0.
